@@ -535,8 +535,9 @@ Qed.
         a candidate key is STALE when it is possible, the scanner is in block context (flow level 0), and either it began
         on an earlier line or more than SIMPLE_KEY_MAX characters ago.  If a stale candidate is REQUIRED (it sits at the
         indentation of the enclosing block mapping) the scan fails (site 44: "simple key expected ':'"); otherwise every
-        stale candidate is invalidated and all others are left alone.  (In flow context the model, like the code,
-        never invalidates: C06's 1024 limit is enforced in block context only.) ---- *)
+        stale candidate is invalidated and all others are left alone.  (In flow context [stale_simple_keys] never
+        invalidates; since /repo 57aa316 the 1024 limit of a flow-sequence pair key is enforced in fetch_value, see
+        Proofs/RejectScan.v [long_flow_pair_key_rejected]; keys of flow MAPPINGS are unlimited, YAML 1.2.2 [147].) ---- *)
 Definition stale_key (s : sc strin) (k : simple_key) : bool :=
   sk_possible k && (sc_flow_level s =? 0)
   && ((m_line (sk_mark k) <? m_line (sc_mark s)) || (m_index (sk_mark k) + SIMPLE_KEY_MAX <? m_index (sc_mark s))).
@@ -669,18 +670,24 @@ Inductive damaged : list N -> Prop :=
 | DSecondRoot f g : wf_ok false f -> wf_ok false g -> not_plain f = true ->
     damaged (render_flow f ++ [10] ++ render_flow g ++ [10]).                (* "[a]" NL "b"       *)
 
-(* The two damage classes of known_findings_c06.jsonl that the model (like the code) still ACCEPTS, as operators of the same
+(* The damage class of known_findings_c06.jsonl that was repaired by /repo 57aa316 (the implicit key of a flow-sequence pair is
+   limited to 1024 characters like any other implicit key, YAML 1.2.2 [154]/[155]); its whole family is PROVED rejected in
+   Proofs/RejectScan.v ([long_flow_pair_key_family_rejected]) *)
+Inductive damaged_long_key : list N -> Prop :=
+| DLongFlowPairKey k v : lower_word k -> lower_word v -> (1024 < length k)%nat ->
+    damaged_long_key ([91; 32] ++ k ++ [58; 32] ++ v ++ [32; 93; 10]).      (* "[ kkkk...k: v ]", key > 1024 chars *)
+
+(* The damage class of known_findings_c06.jsonl that the model (like the code) still ACCEPTS, as an operator of the same
    kind: ill-formed by construction for every choice of the words. *)
 Inductive damaged_known : list N -> Prop :=
-| DLongFlowPairKey k v : lower_word k -> lower_word v -> (1024 < length k)%nat ->
-    damaged_known ([91; 32] ++ k ++ [58; 32] ++ v ++ [32; 93; 10])          (* "[ kkkk...k: v ]", key > 1024 chars *)
 | DFlowContinuationAtBlockIndent k a b : lower_word k -> lower_word a -> lower_word b ->
     damaged_known (k ++ [58; 32; 91] ++ a ++ [44; 10; 39] ++ b ++ [39; 93; 10]).   (* "k: [a," NL "'b']" *)
 
 (* the bracket / second-root fragment: neither proved nor refuted (needs the scanner half for all rendered trees) *)
 Definition C06_full_flow_fragment : Prop := forall s, damaged s -> snd (run_str s) <> PDone.
 (* all six operators *)
-Definition C06_full_damaged : Prop := forall s, damaged s \/ damaged_known s -> snd (run_str s) <> PDone.
+Definition C06_full_damaged : Prop :=
+  forall s, damaged s \/ damaged_long_key s \/ damaged_known s -> snd (run_str s) <> PDone.
 
 Lemma lower_word_repeat c n : 97 <= c -> c <= 122 -> (0 < n)%nat -> lower_word (repeat c n).
 Proof.
@@ -689,16 +696,17 @@ Proof.
   - apply Forall_forall. intros x Hx. apply repeat_spec in Hx. subst x. split; assumption.
 Qed.
 
+(* refuted by the one remaining class, and by nothing else that is known *)
 Lemma C06_full_damaged_refuted : ~ C06_full_damaged.
 Proof.
   intros H.
   assert (D : damaged_known ([107] ++ [58; 32; 91] ++ [97] ++ [44; 10; 39] ++ [98] ++ [39; 93; 10])).
   { apply DFlowContinuationAtBlockIndent; (split; [discriminate | repeat constructor; cbv; discriminate]). }
-  apply (H _ (or_intror D)). vm_compute. reflexivity.
+  apply (H _ (or_intror (or_intror D))). vm_compute. reflexivity.
 Qed.
 
-(* the other remaining class refutes it as well *)
-Lemma long_flow_pair_key_damaged : damaged_known ([91; 32] ++ repeat 107 1025 ++ [58; 32] ++ [118] ++ [32; 93; 10]).
+(* the repaired class is inhabited: the recorded witness "[ k^1025: v ]" *)
+Lemma long_flow_pair_key_damaged : damaged_long_key ([91; 32] ++ repeat 107 1025 ++ [58; 32] ++ [118] ++ [32; 93; 10]).
 Proof.
   apply DLongFlowPairKey.
   - apply lower_word_repeat; [cbv; discriminate | cbv; discriminate | apply Nat.ltb_lt; vm_compute; reflexivity].
